@@ -1,0 +1,16 @@
+//go:build !verif
+
+// Package verifhook holds the call sites of the verification harness. Without the build tag `verif` every function is
+// an empty, inlinable no-op.
+package verifhook
+
+import "context"
+
+func JSONWorkerDelay(firstLine int) {}
+
+func JoinEvent(ctx context.Context, side string, kind string) {}
+
+func CrashPoint(name string) {}
+
+// TornWrite reports whether it handled the write itself (never, without the tag).
+func TornWrite(name string, path string, data []byte) {}
